@@ -5,6 +5,7 @@
    multi-member group g is [agree proof g]. *)
 From Coq Require Import List NArith Bool.
 From Wesh Require Import Model.C11_Keys Proofs.C11_Keys.
+From Wesh Require Import Model.C11_FirstUse Proofs.C11_FirstUse.
 Import ListNotations.
 Open Scope N_scope.
 
@@ -78,6 +79,21 @@ Example C11_nonvacuous :
   [CGroup 0; CGroup 0; CPair 1 2; CRefused; CPair 3 4; CPair 5 6].
 Proof. vm_compute. reflexivity. Qed.
 
+(* concurrent first use of a key of the device keystore (Model.C11_FirstUse: any number of callers, one
+   step per lock operation, any schedule): two callers that have returned hold the same key and it is
+   the key the keystore keeps; the unlocked shape (lookup, generation outside the lock, put without a
+   second look) hands two callers two keys.  GenFacts/KeystoreFacts.v re-proves on every run that the
+   methods of the current source take the exclusive lock around their get-or-create. *)
+Theorem C11_concurrent_first_use_agrees :
+  (forall n sched s i j r r',
+     fu_run (fu_init n) sched = Some s ->
+     nth_error (fu_threads s) i = Some (TDone r) -> nth_error (fu_threads s) j = Some (TDone r') ->
+     r = r' /\ fu_store s = Some r) /\
+  (exists s, urun (mkU None [UStart; UStart] 1) [0%nat; 1%nat; 0%nat; 1%nat] = Some s /\
+             u_threads s = [UDone 1; UDone 2] /\ u_store s = Some 2).
+Proof. exact (conj first_use_agreement unlocked_first_use_disagrees). Qed.
+
+Print Assumptions C11_concurrent_first_use_agrees.
 Print Assumptions C11_contact_group_symmetric.
 Print Assumptions C11_contact_group_injective.
 Print Assumptions C11_contact_group_is_function.
